@@ -118,6 +118,11 @@ func runC15(env *Env, rc *RunCtx) {
 		for k, v := range extra {
 			ex[k] = v
 		}
+		if !r.Returned && r.Outcome == DriveStepLimit && bound > r.Calls {
+			// the harness stopped releasing calls below the bound: inconclusive
+			rc.Count("inconclusive_step_limit", 1)
+			return false
+		}
 		if !r.Returned {
 			site := what
 			if r.Outcome == DriveStepLimit {
